@@ -56,7 +56,7 @@ def gen(rng, cid, tier):
             gates.append({"at_write": at, "until_attempted": min(nlog, at + rng.randint(nlog // 4, nlog))})
             at += rng.randint(1, 30)
     return {"id": cid, "seed": rng.randint(1, 10**6), "threads": threads_, "gates": gates, "slow_us": rng.choice([5, 50]) if mode == "slow" else 0,
-            "yield_us": rng.choice([0, 20, 100]), "mode": mode, "silenced_thread": silenced_thread, "total_bytes": total}
+            "yield_us": rng.choice([0, 20, 100]), "mutex_yield_ppm": rng.choice([0, 20000, 200000]), "mode": mode, "silenced_thread": silenced_thread, "total_bytes": total}
 
 
 def cases(seed, tier):
